@@ -97,25 +97,29 @@ func (n *RangeLiteralNode) Equal(other value.Value) bool {
 func (n *RangeLiteralNode) String() string {
 	var buff strings.Builder
 
-	leftParen := ExpressionPrecedence(n) > ExpressionPrecedence(n.Start)
-	rightParen := ExpressionPrecedence(n) >= ExpressionPrecedence(n.End)
-
-	if leftParen {
-		buff.WriteRune('(')
-	}
-	buff.WriteString(n.Start.String())
-	if leftParen {
-		buff.WriteRune(')')
+	// range literals are not associative, a range on either side has to be parenthesised
+	if n.Start != nil {
+		leftParen := ExpressionPrecedence(n) >= ExpressionPrecedence(n.Start)
+		if leftParen {
+			buff.WriteRune('(')
+		}
+		buff.WriteString(n.Start.String())
+		if leftParen {
+			buff.WriteRune(')')
+		}
 	}
 
 	buff.WriteString(n.Op.String())
 
-	if rightParen {
-		buff.WriteRune('(')
-	}
-	buff.WriteString(n.End.String())
-	if rightParen {
-		buff.WriteRune(')')
+	if n.End != nil {
+		rightParen := ExpressionPrecedence(n) >= ExpressionPrecedence(n.End)
+		if rightParen {
+			buff.WriteRune('(')
+		}
+		buff.WriteString(n.End.String())
+		if rightParen {
+			buff.WriteRune(')')
+		}
 	}
 
 	return buff.String()
